@@ -279,3 +279,61 @@ def expr_str(e, names=None):
     if k == 'len': return 'len(%s)' % expr_str(e[1])
     if k == 'agg': return '%s(%s)' % (e[1], ', '.join(expr_str(x) for x in e[2:]))
     return str(e)
+
+
+# ---------------------------------------------------------------------------------------------------
+# Pattern matching on structural expressions
+COMMUTATIVE = {'Add', 'Mul', 'BitOr', 'BitAnd', 'BitXor', 'Eq', 'Ne'}
+
+
+def ematch(pat, e, env=None, strip=True):
+    """Match expression e against pattern pat.  Pattern atoms: ('?', name) captures (same name = same sub-expression),
+    ('*',) matches anything, ('callp', suffix, args...) matches a call whose callee ends with suffix.  Casts are skipped when strip."""
+    if env is None: env = {}
+    if strip:
+        while isinstance(e, tuple) and e and e[0] == 'cast' and not (isinstance(pat, tuple) and pat and pat[0] == 'cast'):
+            e = e[2]
+    if isinstance(pat, tuple) and pat:
+        if pat[0] == '?':
+            if pat[1] in env:
+                return env if _eq_mod_casts(env[pat[1]], e) else None
+            env = dict(env); env[pat[1]] = e
+            return env
+        if pat[0] == '*':
+            return env
+        if pat[0] == 'callp':
+            if not (isinstance(e, tuple) and e and e[0] == 'call' and e[1].endswith(pat[1])): return None
+            if len(pat) - 2 != len(e) - 2: return None
+            for p, x in zip(pat[2:], e[2:]):
+                env = ematch(p, x, env, strip)
+                if env is None: return None
+            return env
+        if not isinstance(e, tuple) or len(e) != len(pat) or e[0] != pat[0]:
+            return None
+        if pat[0] == 'op' and pat[1] == e[1] and pat[1] in COMMUTATIVE:
+            for a, b in ((e[2], e[3]), (e[3], e[2])):
+                env1 = ematch(pat[2], a, env, strip)
+                if env1 is not None:
+                    env2 = ematch(pat[3], b, env1, strip)
+                    if env2 is not None: return env2
+            return None
+        for p, x in zip(pat[1:], e[1:]):
+            env = ematch(p, x, env, strip)
+            if env is None: return None
+        return env
+    return env if pat == e else None
+
+
+def _eq_mod_casts(a, b):
+    a = strip_casts(a); b = strip_casts(b)
+    if isinstance(a, tuple) and isinstance(b, tuple):
+        if len(a) != len(b): return False
+        return all(_eq_mod_casts(x, y) for x, y in zip(a, b))
+    return a == b
+
+
+def V(name):
+    return ('?', name)
+
+
+ANY = ('*',)
